@@ -55,6 +55,8 @@ extern char vm_ctx_desc[600];
 #define VM_MAXCVAL 16
 extern char vm_cval[VM_MAXCVAL][300];   /* canonical text of the value of every catch that completed with an error, in order */
 extern int vm_ncval; /* description of the element, used in failure messages */
+extern object_t *vm_fault_object; /* if set before vm_hook_arm(): fault_at counts only dispatches made with this current_object */
+long vm_insn_in_object (void);
 void vm_hook_arm (long fault_at, int mode, int driver_ec_depth);
 void vm_hook_disarm (void);
 const char *vm_ctx_name (void);
